@@ -23,13 +23,13 @@ PID = "C10"
 # ---------------------------------------------------------------- running the two sides
 class Budget:
     """Bounded run time on a broken tree too.  Per-process time-out calibrated on the runs that succeeded
-    (20 x median, at least 2 s; 5 s until calibrated); generation stops after `max_fatal` files on which the
+    (20 x median, at least 10 s; 20 s until calibrated: generous, a loaded machine must not turn into a false alarm); generation stops after `max_fatal` files on which the
     process hung or died on a signal, or when `wall_s` is used up; shrinking has its own deadline."""
 
     def __init__(self, wall_s=90.0, max_fatal=3, shrink_s=30.0):
         self.t0 = time.time()
         self.wall_s, self.max_fatal, self.shrink_s = wall_s, max_fatal, shrink_s
-        self.timeout = 5.0
+        self.timeout = 20.0
         self.durations = []
         self.fatal = []          # tags of files with a hang / signal
         self.skipped = 0
@@ -43,7 +43,7 @@ class Budget:
         with self.lock:
             if len(self.durations) >= 10:
                 d = sorted(self.durations)
-                self.timeout = max(2.0, 20 * d[len(d) // 2])
+                self.timeout = max(10.0, 20 * d[len(d) // 2])
         return self.timeout
 
     def fatal_seen(self, tag):
